@@ -7,6 +7,7 @@ C12 driver. Input lines (one answer line each):
   new ising <cutoff>                       → `<cutoff> <len>`            (constructor)
   new generic <nvars>                      → `<cutoff> <len>`
   step <site> <prevcut> <prevlen> <n>      → `<newcut> <newlen>`         (rule + container growth)
+  idle <site> <cutoff> <len> <n>           → `<cutoff> <len> <n>`        (non-diagonal moves)
   sweep <cutoff> <before bits> <after bits>→ `<isSweepResult> <n after>`
   setcut <c> <cutoff> <occ bits>           → `<cutoff> <len> <n>`        (`set_cutoff`)
   equalise <cutoffs> <lens>                → `<cutoffs'> <lens'>`        (tempering preamble)
@@ -22,6 +23,9 @@ def step (toks : List String) : String :=
   | ["step", _site, pc, pl, n] =>
     let pc := parseNat pc
     s!"{nextCutoff pc (parseNat n)} {growLen (parseNat pl) pc}"
+  | ["idle", _site, pc, pl, n] =>
+    -- cluster / loop / RVB / free-spin moves: neither the cutoff, nor the container, nor n changes
+    s!"{parseNat pc} {parseNat pl} {parseNat n}"
   | ["sweep", c, before, after] =>
     let a := parseBits after
     s!"{showBool (isSweepResult (parseNat c) (parseBits before) a)} {countOcc a}"
